@@ -43,5 +43,18 @@ def boot(quiet=True):
     import atexit
     from enspara.citation import citation
     atexit.unregister(citation.citation_printer)
+    # import everything once in the parent, so that forked run processes start warm
+    import importlib
+    for m in ('enspara.cluster', 'enspara.cluster.kcenters', 'enspara.cluster.kmedoids', 'enspara.cluster.hybrid',
+              'enspara.cluster.util', 'enspara.mpi', 'enspara.mpi.ops', 'enspara.mpi.io', 'enspara.ra', 'enspara.msm',
+              'enspara.tpt', 'enspara.info_theory', 'enspara.info_theory.mutual_info', 'enspara.info_theory.entropy',
+              'enspara.geometry.libdist', 'enspara.info_theory.libinfo', 'enspara.msm.libmsm', 'enspara.geometry.rotamer',
+              'enspara.cards.disorder', 'enspara.util.load', 'mdtraj', 'tables', 'sklearn.utils', 'scipy.sparse.linalg',
+              'scipy.sparse.csgraph'):
+        try:
+            importlib.import_module(m)
+        except Exception:
+            if m.startswith('enspara.') and m.count('.') == 1:
+                raise
     STAGE, DIGEST = stage, dig
     return stage
